@@ -14,8 +14,8 @@ Definition is_acq (o : lop) : bool := match o with OUnl _ _ => false | _ => true
 Definition item_ok (s : lstate) (it : item) : Prop :=
   match it with
   | ICall _ op =>
-      (* a fresh key for every acquisition ... *)
-      (is_acq op = true → ∀ tid' t', l_thr s !! tid' = Some t' → is_acq (t_op t') = true → op_key (t_op t') ≠ op_key op) ∧
+      (* a fresh key for every acquisition: never seen in ANY earlier call (uuid.NewString) ... *)
+      (is_acq op = true → ∀ tid' t', l_thr s !! tid' = Some t' → op_key (t_op t') ≠ op_key op) ∧
       (* ... and nobody can present a key to Unlock before the call that drew it has reported it *)
       (is_acq op = false → ∀ tid' t', l_thr s !! tid' = Some t' → is_acq (t_op t') = true → op_key (t_op t') = op_key op →
                            ∃ r, t_pc t' = PFin r)
@@ -73,15 +73,26 @@ Record LInv (s : lstate) : Prop := {
       (t_pc t = PAcqEnter oid ∨ t_pc t = PAcqWait oid ∨ t_pc t = PAcqWoken oid ∨ t_pc t = PAcqCancel oid ∨ t_pc t = PRelCancel oid) →
       ∃ n k z, t_op t = OLock n k z;
   li_cancel_lock : ∀ tid t, l_thr s !! tid = Some t → t_cancel t ≠ None → ∃ n k z, t_op t = OLock n k z;
+  (* (added by lkinv: needed for inductiveness) the acquisition pcs belong to acquisition calls, the unlock pcs to Unlock calls *)
+  li_acq_pc : ∀ tid t oid, l_thr s !! tid = Some t → (t_pc t = PChkDel oid ∨ t_pc t = PTryAcq oid ∨ t_pc t = PAddKey oid) →
+      is_acq (t_op t) = true;
+  li_unl_pc : ∀ tid t oid, l_thr s !! tid = Some t → (t_pc t = PUnlChk oid ∨ t_pc t = PUnlRem oid) → is_acq (t_op t) = false;
   (* keys: every key in a key list or in transit is the key of a distinct acquisition call (freshness) *)
   li_fresh : ∀ t1 t2 x1 x2, l_thr s !! t1 = Some x1 → l_thr s !! t2 = Some x2 →
       is_acq (t_op x1) = true → is_acq (t_op x2) = true → op_key (t_op x1) = op_key (t_op x2) → t1 = t2;
+  (* (added by lkinv for lklin) an Unlock call presents only keys whose acquisition call has returned *)
+  li_unl_key : ∀ tid t tid' t', l_thr s !! tid = Some t → is_acq (t_op t) = false → l_thr s !! tid' = Some t' →
+      is_acq (t_op t') = true → op_key (t_op t') = op_key (t_op t) → ∃ r, t_pc t' = PFin r;
   li_keys : ∀ oid o, l_heap s !! oid = Some o → NoDup (o_keys o) ∧
       ∀ k, k ∈ o_keys o → ∃ tid t, l_thr s !! tid = Some t ∧ is_acq (t_op t) = true ∧ op_key (t_op t) = k
                                    ∧ op_name (t_op t) = o_name o ∧ (t_pc t = PDone oid (LRes true None) ∨ t_pc t = PFin (LRes true None));
   (* a call reports a grant only for a key it put into the key list (or that was since unlocked by an Unlock call) *)
   li_granted : ∀ tid t, l_thr s !! tid = Some t → is_acq (t_op t) = true → t_pc t = PFin (LRes true None) →
       (∃ oid o, l_map s !! op_name (t_op t) = Some oid ∧ l_heap s !! oid = Some o ∧ op_key (t_op t) ∈ o_keys o)
+      ∨ (∃ tid' t', l_thr s !! tid' = Some t' ∧ t_op t' = OUnl (op_name (t_op t)) (op_key (t_op t)));
+  (* (added by lkinv: needed for inductiveness of li_granted) the same while the successful call is about to return *)
+  li_done : ∀ tid t oid, l_thr s !! tid = Some t → is_acq (t_op t) = true → t_pc t = PDone oid (LRes true None) →
+      (∃ o, l_heap s !! oid = Some o ∧ op_key (t_op t) ∈ o_keys o)
       ∨ (∃ tid' t', l_thr s !! tid' = Some t' ∧ t_op t' = OUnl (op_name (t_op t)) (op_key (t_op t)));
   (* after Manager.shutdown no call is in flight, which is why the manager context's checks are not modelled *)
   li_shut : l_shut s = true → ∀ tid t, l_thr s !! tid = Some t → in_flight (t_pc t) = false;
